@@ -12,3 +12,4 @@ def check(ctx, prog):
     dispatch.rule_global_state(ctx, prog)
     model.rule_init_coherence(ctx, prog)
     dispatch.rule_reinit(ctx, prog)
+    dispatch.rule_mode_arith(ctx, prog)
